@@ -741,6 +741,7 @@ func runC06(w *World, r *Report) {
 
 	shareRule(w, r, "C06.interrupts-all-collected", "waitAll returns only when nothing is outstanding, also when a collected task carries an error: a second interrupting node, or an interrupt-after node finishing later, is in the report and the checkpoint", 2, "C03", "C03.wait-all-drains")
 	shareRule(w, r, "C06.channel-state-restored-whole", "what a checkpoint holds of a channel (values, arrivals, the skipped mark) is all taken over on load: a node the run had decided not to run is not reported as an interrupt-before node after a resume", 8, "C05", "C05.channel-state")
+	shareRule(w, r, "C06.state-saved-by-its-owner-only", "an interrupt reports and saves a state only for the graph that owns one (the lookup stands under the runner having a state generator): a stateless nested graph does not save the parent's state as its own and continue on a detached copy", 1, "C11", "C11.survives")
 
 	r.Rule("C06.bundled-state-serializable", "the local state types of the bundled flows (the type a flow hands to WithGenLocalState: react, host multi-agent) are registered with the checkpoint serializer in their package and have exported fields only: an interrupt in or next to an exported agent graph writes that state into the checkpoint, and a caller cannot register an unexported type", 2)
 	{
